@@ -141,7 +141,6 @@ def justified : List (String × String) := [
   ("util/libcons.ConsensusChecker.VerifyEvidence#groups", "at most one group has quorum: evidence_winner_order_independent"),
   ("x/evm/keeper.rankValidators#validatorsInfos", "min/max window and final total-order sort: min_window_perm_invariant, max_window_perm_invariant, sorted_perm_unique"),
   ("x/metrix/keeper.Keeper.PurgeRelayMetrics#updates", "writes to pairwise distinct keys: distinct_key_writes_commute"),
-  ("x/paloma/keeper.Keeper.JailValidatorsWithMissingExternalChainInfos#mmap", "collected strings are sorted (sort.Strings) before use inside the loop over validators"),
   ("x/skyway/keeper.CheckBatches#inProgressBatches", "crisis invariant, read-only"),
   ("x/skyway/types.InternalBridgeValidators.PowerDiff#powers", "no caller outside tests (float sum would be order-sensitive if it were ever used)"),
   ("x/valset/keeper.Keeper.isNewSnapshotWorthy#currentMap", "existential with early `return true`; only the log text differs"),
@@ -153,6 +152,19 @@ def envJustified : List (String × String) := [
   ("x/paloma/keeper.msgServer.AddStatusUpdate", "both settings return success and write no state (only logging differs); exercised by twin execution with the variable set on one twin")
 ]
 
+/-- what each environment-reading function may still do after the read (regenerated facts):
+    the error returns (a transaction result that would differ between nodes) and the keeper calls
+    (state access). `AddStatusUpdate`: the single error return is the creator-address parse, which
+    cannot fail for a transaction that passed `ValidateBasic` (libmeta validates the creator), and the
+    only keeper call is the logger. -/
+def envRegionExpected : List (String × List String × List String) := [
+  ("app.GetPigonListenPort", [], []),
+  ("x/paloma/keeper.msgServer.AddStatusUpdate", ["return nil, err"], ["k.Logger"])
+]
+
+def envRegionOk (r : Paloma.Gen.Nondet.EnvRegion) : Bool :=
+  envRegionExpected.any fun e => e.1 == r.fn && e.2.1 == r.errorReturns && e.2.2 == r.keeperCalls
+
 def randJustified : List String :=
   ["x/skyway/types.NonemptyEthAddress", "x/skyway/types.NonemptySdkAccAddress", "x/skyway/types.NonzeroSdkInt", "x/skyway/types.NonzeroUint64"]
 
@@ -160,8 +172,10 @@ def mapRangeOk (s : Paloma.Gen.Nondet.Site) : Bool :=
   safeKinds.contains s.kind || justified.any (fun j => j.1 == s.fn ++ "#" ++ s.expr)
 
 /-- **nondeterminism_inventory_covered.** In the current source every `range` over a map is an
-order-insensitive shape or individually justified above; the only environment reads are the
-two justified ones; there is no wall-clock read and no use of the process-local time zone
+order-insensitive shape (a filtered collect counts as a collect, and must be sorted afterwards) or
+individually justified above; the only environment reads are the two justified ones, and after
+such a read the function has exactly the listed error returns and keeper calls (a new way to fail
+or to touch state behind the feature flag makes this fail); there is no wall-clock read and no use of the process-local time zone
 (`time.Unix`, `.Local()`, `time.LoadLocation` …); randomness occurs only in the listed test
 helpers; and the relayer assigner has a value receiver, so its per-call score cache cannot
 survive into another call. A new unsorted map range, environment read, `time.Now` or `rand`
@@ -169,6 +183,8 @@ use on a consensus path makes this `decide` fail. -/
 theorem nondeterminism_inventory_covered :
     (Paloma.Gen.Nondet.mapRanges.all mapRangeOk &&
      Paloma.Gen.Nondet.envReads.all (fun s => envJustified.any (fun j => j.1 == s.fn)) &&
+     Paloma.Gen.Nondet.envRegions.all envRegionOk &&
+     Paloma.Gen.Nondet.envRegions.length == Paloma.Gen.Nondet.envReads.length &&
      Paloma.Gen.Nondet.clockReads.isEmpty &&
      Paloma.Gen.Nondet.localZoneUses.isEmpty &&
      Paloma.Gen.Nondet.randomUses.all (fun s => randJustified.contains s.fn) &&
